@@ -574,13 +574,14 @@ theorem C29_first_sound (c : Cx α) (henv : ∀ x b, c.env.find x = some b → b
     ∃ t, c.toks[i]? = some t ∧ ∃ fi ∈ fs, fi.accepts t = true :=
   matchF_first_sound c henv f g i hwf hp f' c.env fs me (SubEnv.refl _) hfs
 
-/-- Why committing is safe: if option `i` has `stops[i]` set and consumed input at `p`, a later
+/-- Why committing is safe: let `gi`, `gj` be options `i < j` of a choice with first sets `fsi`,
+`fsj` (entries `i`, `j` of `firsts`).  If option `i` has `stops[i]` set and consumed input at `p`, the later
 option `j` can consume input at `p` only in the keyword-versus-token-class case
 (`"if" | IDENT`): otherwise no later option could have matched more than the empty input. -/
 theorem C29_commit_sound (c : Cx α) (henv : ∀ x b, c.env.find x = some b → b.wf c.env = true)
-    (f f' : Nat) (opts : List G) (firsts : List (List FI)) (i j p : Nat) (gi gj : G)
+    (f f' : Nat) (firsts : List (List FI)) (i j p : Nat) (gi gj : G)
     (fsi fsj : List FI) (mei mej : Bool)
-    (hgi : opts[i]? = some gi) (hgj : opts[j]? = some gj) (hij : i < j)
+    (hij : i < j)
     (hwi : gi.wf c.env = true) (hwj : gj.wf c.env = true)
     (hfi : firstF f' c.env gi = .ok fsi mei) (hfj : firstF f' c.env gj = .ok fsj mej)
     (hi : firsts[i]? = some fsi) (hj : firsts[j]? = some fsj)
